@@ -57,10 +57,13 @@ class Shard:
         return random.Random('/'.join(str(k) for k in (self.seed, self.prop) + key))
 
     def set_budget(self, seconds):
-        self.deadline = time.time() + seconds
+        # the soft budget is counted in CPU time of this worker, so that a loaded machine does not shrink the workload (and
+        # with it what the monitors observe); a wall-clock cap of five times the budget keeps a starved worker bounded
+        self.deadline = time.process_time() + seconds
+        self.wall_deadline = time.time() + min(5 * seconds, seconds + 3000)
 
     def out_of_time(self):
-        return self.deadline is not None and time.time() > self.deadline
+        return self.deadline is not None and (time.process_time() > self.deadline or time.time() > self.wall_deadline)
 
     # --- recording
     def case(self, key, nontrivial=True, sample=None):
